@@ -13,6 +13,7 @@ import (
 	"bytes"
 	"encoding/json"
 	"context"
+	"errors"
 	"fmt"
 	"io"
 	"runtime"
@@ -816,6 +817,87 @@ func TestInterruptAfterEndedEvaluations(t *testing.T) {
 // effect must be the right bytes, and once a call has failed with the context
 // error no later call may return data.  (Seed C20-3: a check-then-send race in
 // callWait deadlocks the caller.)
+
+// gatedReader blocks every Read/Seek until it is released: the harness owns
+// the moment at which an in-flight call of the wrapped reader completes.
+type gatedReader struct {
+	r       *bytes.Reader
+	entered chan struct{}
+	release chan struct{}
+	exited  chan struct{}
+}
+
+func (g *gatedReader) Read(p []byte) (int, error) {
+	g.entered <- struct{}{}
+	<-g.release
+	n, err := g.r.Read(p)
+	g.exited <- struct{}{}
+	return n, err
+}
+
+func (g *gatedReader) Seek(off int64, whence int) (int64, error) {
+	g.entered <- struct{}{}
+	<-g.release
+	n, err := g.r.Seek(off, whence)
+	g.exited <- struct{}{}
+	return n, err
+}
+
+// A call that is IN FLIGHT in the wrapped reader when the context is cancelled:
+// the caller returns with the context error while the abandoned call still
+// completes on the reader's own goroutine.  The two must not share memory
+// (found on the unchanged tree by TestCtxReadSeekerCancel on a loaded machine:
+// the abandoned call wrote the caller's named results; repaired).  The gate
+// makes the situation certain instead of a matter of timing: the cancellation
+// and the release of the in-flight call are issued by the same goroutine, so
+// the caller's return and the end of the abandoned call are unordered and the
+// race detector decides.
+func TestCtxReadSeekerInFlightCancel(t *testing.T) {
+	rounds := harness.N(400, 20000) / max(1, harness.E.NShards)
+	data := []byte("0123456789abcdef0123456789abcdef")
+	for r := 0; r < rounds; r++ {
+		g := &gatedReader{r: bytes.NewReader(data), entered: make(chan struct{}, 1), release: make(chan struct{}), exited: make(chan struct{}, 1)}
+		ctx, cancel := context.WithCancel(context.Background())
+		rs := ctxreadseeker.New(ctx, g)
+		op := r % 2
+		type res struct {
+			n   int64
+			err error
+			p   []byte
+		}
+		done := make(chan res, 1)
+		go func() {
+			if op == 0 {
+				p := make([]byte, 8)
+				n, err := rs.Read(p)
+				done <- res{int64(n), err, p}
+			} else {
+				n, err := rs.Seek(5, io.SeekStart)
+				done <- res{n, err, nil}
+			}
+		}()
+		<-g.entered
+		cancel()
+		close(g.release)
+		out := <-done
+		<-g.exited
+		harness.Count(harness.HashInts(61, uint64(r), harness.E.Seed), true, "ctxreadseeker-in-flight-cancel", []string{"in-flight-read", "in-flight-seek"}[op])
+		switch {
+		case out.err != nil && !errors.Is(out.err, context.Canceled):
+			if harness.Violate(t.Name(), "ctxreadseeker:in-flight:error", fmt.Sprintf("round %d: error %v", r, out.err), map[string]any{"round": r, "op": op}) {
+				t.Errorf("round %d: %v", r, out.err)
+			}
+		case out.err == nil && op == 0 && (out.n != 8 || !bytes.Equal(out.p, data[:8])):
+			if harness.Violate(t.Name(), "ctxreadseeker:in-flight:bytes", fmt.Sprintf("round %d: Read returned %d bytes %q", r, out.n, out.p), map[string]any{"round": r, "op": op}) {
+				t.Errorf("round %d: wrong bytes", r)
+			}
+		case out.err == nil && op == 1 && out.n != 5:
+			if harness.Violate(t.Name(), "ctxreadseeker:in-flight:seek", fmt.Sprintf("round %d: Seek returned %d", r, out.n), map[string]any{"round": r, "op": op}) {
+				t.Errorf("round %d: wrong position", r)
+			}
+		}
+	}
+}
 
 func TestCtxReadSeekerCancel(t *testing.T) {
 	rounds := harness.N(12000, 400000) / max(1, harness.E.NShards)
